@@ -6,7 +6,7 @@
   The model is purely functional; that the real `subset` works on a *copy* of the outer selection vector
   (no aliasing) is what the harness re-reads after every operation.
 -/
-import Batchie.Lemmas.ViewsExpr
+import Batchie.Lemmas.ViewsSelect
 
 namespace Batchie.Props.C14
 open Batchie.Screen Batchie.Proto Batchie.Views
@@ -224,6 +224,35 @@ theorem C14_unique_filter (s : Screen) (v : View) (hs : v.sel.length = s.sids.le
     rw [← maskFilter_zip, maskFilter_scatter _ _ _ hlen, maskFilter_zip]
     exact maskFilter_uniqueMask (uniqKeys s v.sel)
 
+/-- **`select_unique_zipped_numpy_arrays`** (`selectUnique`, run by the driver's `uniq` against the real function): refused for
+    no array or arrays of different lengths; otherwise the mask has one entry per row and keeps exactly the first
+    occurrence of every distinct zipped row — whatever the ids are (control sentinel `-1`, all-control columns, …). -/
+theorem C14_select_unique (c : List Int) (rest : List (List Int)) :
+    selectUnique [] = .error .valueError ∧
+    ((∃ x ∈ rest, x.length ≠ c.length) → selectUnique (c :: rest) = .error .valueError) ∧
+    ((∀ x ∈ rest, x.length = c.length) →
+      let rows := zipColumns (c :: rest) c.length
+      ∃ m, selectUnique (c :: rest) = .ok m ∧ m.length = c.length ∧ rows.length = c.length ∧
+        maskFilter rows m = rows.eraseDups ∧ (∀ k ∈ rows, (maskFilter rows m).count k = 1) ∧
+        (∀ i (hi : i < rows.length), m[i]? = some true ↔ rows[i] ∉ rows.take i)) := by
+  refine ⟨rfl, ?_, ?_⟩
+  · rintro ⟨x, hx, hne⟩
+    have : rest.any (fun x => x.length != c.length) = true := List.any_eq_true.mpr ⟨x, hx, by simpa using hne⟩
+    simp [selectUnique, this]
+  · intro hall
+    have hany : rest.any (fun x => x.length != c.length) = false := by
+      rw [List.any_eq_false]; intro x hx; simp [hall x hx]
+    have hlen : (zipColumns (c :: rest) c.length).length = c.length := by simp [zipColumns]
+    obtain ⟨h1, h2, _, _, h5, h6⟩ := C14_unique_exactly_one (zipColumns (c :: rest) c.length)
+    exact ⟨_, by simp [selectUnique, hany], by rw [h1, hlen], hlen, h2, h5, h6⟩
+
+/-- the model's unique filter is the code path `select_unique_zipped_numpy_arrays([sample_ids] + [treatment_ids[:, j] …])`
+    followed by `view.subset(mask)` -/
+theorem C14_unique_filter_columns (s : Screen) (v : View) (hs : v.sel.length = s.sids.length) (ht : v.sel.length = s.tids.length)
+    (hrow : ∀ row ∈ s.tids, row.length = s.arity) :
+    ∃ m, selectUnique (uniqColumns s v.sel) = .ok m ∧ s.uniqueFilter v = v.subset m :=
+  ⟨_, selectUnique_uniqColumns s v.sel hs ht hrow, rfl⟩
+
 /-! ### views of different parents -/
 
 /-- **views of different parent screens refuse to combine / concat** -/
@@ -287,5 +316,11 @@ example : ([false, true, true] : List Bool).length = ([true, false, true, true, 
 example : uniqueMask [3, 1, 3, 2, 1, 3] = [true, true, false, true, false, false] := by decide
 example : orSel [true, false, false] [true, true, false] = [true, true, false] := by decide
 example : scatter [false, false] [] = [false, false] ∧ scatter [true, true] [true, true] = [true, true] := by decide
+
+/-- `C14_select_unique` on sentinel-heavy columns: an all-control column, and the pair (1, -1) / (0, 2) that collides under
+    mixed-radix packing -/
+example : (selectUnique [[0, 0, 1, 0], [-1, -1, -1, -1]]).toOption = some [true, false, true, false] := by decide
+example : (selectUnique [[1, 0, 1, 0], [-1, 2, -1, 2]]).toOption = some [true, true, false, false] := by decide
+example : (selectUnique [[1, 2], [1]]).toOption = none ∧ (∃ x ∈ [[(1 : Int)]], x.length ≠ [(1 : Int), 2].length) := by decide
 
 end Batchie.Props.C14
